@@ -69,8 +69,10 @@ def _setup(inst):
     m = zoo.build(inst["module"])
     m.record("v", verbose=False)
     for ch in m.channels:
+        row = int(np.where(m.nodes[ch._name].to_numpy())[0][0])
         for k in list(ch.channel_states)[:1]:
-            m.select(nodes=[int(np.where(m.nodes[ch._name].to_numpy())[0][0])]).record(k, verbose=False)
+            m.select(nodes=[row]).record(k, verbose=False)
+        m.select(nodes=[row]).record(ch.current_name, verbose=False)   # membrane currents are recordable states too
     return m
 
 
@@ -248,7 +250,7 @@ def run_instance(inst):
 
 def families():
     quick = harness.tier() == "quick"
-    mods = ["comp_hh", "branch3_leak", "cell_irreg", "net2_tanh"] + ([] if quick else ["cell_y", "net2_iono", "branch2_hh"])
+    mods = ["comp_hh", "comp_pump", "cell_irreg", "net2_tanh"] + ([] if quick else ["branch3_leak", "cell_y", "net2_iono", "branch2_hh"])
     combos = [("bwd_euler", "jaxley.stone"), ("bwd_euler", "jaxley.thomas"), ("crank_nicolson", "jax.sparse")]
     if not quick:
         combos += [("crank_nicolson", "jaxley.stone"), ("bwd_euler", "jax.sparse"), ("fwd_euler", "jaxley.thomas")]
@@ -256,7 +258,7 @@ def families():
     insts = []
     for mod in mods:
         for (solver, vs) in combos:
-            if solver == "fwd_euler" and mod not in ("comp_hh", "branch3_leak", "branch2_hh"):
+            if solver == "fwd_euler" and mod not in ("comp_hh", "comp_pump", "branch3_leak", "branch2_hh"):
                 continue
             for sp in splits:
                 n = sum(sp)
